@@ -76,6 +76,14 @@ def run(ck):
                                                                     real_seg, real_seg * 2 + 1])
                 if DownloadNode.default_max_segment_size < real_seg:
                     ck.hit("segment-size-guess-below-the-real-size")
+                if rng.random() < .3:
+                    # servers that do not tolerate reads past the end of a share: the downloader must then fetch the
+                    # header, the offset table and the UEB in exact pieces instead of one speculative read
+                    for vs in g.servers:
+                        v1 = vs.wire.version.get(b"http://allmydata.org/tahoe/protocols/storage/v1")
+                        if isinstance(v1, dict):
+                            v1[b"tolerates-immutable-read-overrun"] = False
+                    ck.hit("servers-do-not-tolerate-read-overrun")
                 node = c.create_node_from_uri(cap)
                 history = []
                 failed_before = False
@@ -138,7 +146,7 @@ def run(ck):
             break
     ck.require_monitor("termination-oracle")
     ck.require_reach("completed-ok", "completed-err", "follow-up-after-failure", "connection-cut-between-segments",
-                     "segment-size-guess-below-the-real-size")
+                     "segment-size-guess-below-the-real-size", "servers-do-not-tolerate-read-overrun")
 
 
 def cut_between_segments(ck, rng, i, profile):
